@@ -9,7 +9,8 @@ VARIABLES nsend, nflip, nopen
 mcvars == <<vars, nsend, nflip, nopen>>
 
 MCInit ==
-    /\ InitWith([np |-> NP, plen |-> PLEN, maxblk |-> MAXBLK, maxq |-> MAXQ, cb |-> CB, nconn |-> NCONN, impl |-> IMPL, afsend |-> AFSEND], HAVE0)
+    /\ InitWith([np |-> NP, plen |-> PLEN, maxblk |-> MAXBLK, maxq |-> MAXQ, cb |-> CB, nconn |-> NCONN, impl |-> IMPL, afsend |-> AFSEND,
+                 afcheck |-> "sent", shortread |-> "error", twophase |-> FALSE, bufs |-> "fresh"], HAVE0)
     /\ nsend = 0 /\ nflip = 0 /\ nopen = 0
 
 ReqMsgs == {M("req", r[1], r[2], r[3], <<>>) : r \in REQS} \cup {M("cancel", r[1], r[2], r[3], <<>>) : r \in CANS}
